@@ -98,4 +98,20 @@ PROPS = {
         "rule": "cases: corpus (invalid half), slot x byte-class sweep, truncations of corpus and rendered documents at arbitrary bytes, 1-3 mutations, near-miss lexemes, synthetic multi-byte error documents. Each rejected input is one evaluation judging up to 6 error values. distinct = text hash; non-trivial = rejected inputs",
         "assumptions": COMMON,
     },
+    "C06": {
+        "claimed": True,
+        "technique": "reference-model round-trip monitor: random value trees are realised through randomly chosen construction-API routes, printed, and the print is decoded by the independent reference decoder and by the real parser; purity monitor on repeated prints",
+        "level_text": "random trees with adversarial keys, strings, integers, floats and date-times are assembled through Table/InlineTable/Array/ArrayOfTables/Value/Key constructors, From impls, entry/IndexMut/extend routes (toml_edit) and insert/From (toml::Table/Value); the print must be valid for R, decode (R and real parser) to the built tree with element order exact and key order exact up to the values-before-tables partition TOML forces, and print identically twice and from a clone",
+        "level_note": "trusted: R; the expected order is computed by the harness from the container kinds it chose",
+        "rule": "cases: random trees (1-60 nodes; tables, arrays, arrays of tables, inline tables nested up to 6) built through random API routes; toml::Table/Value built from the same trees; single values and keys. distinct = tree hash; all non-trivial. Not generated (outside the quantifier): raw decor setters, set_dotted/implicit/position, Table items inside values, Item::None, empty ArrayOfTables",
+        "assumptions": COMMON,
+    },
+    "C16": {
+        "claimed": True,
+        "technique": "history monitor with an executable reference model: random call histories on each container are replayed against a plain ordered map / vector and every return value and a full observation are compared after every call",
+        "level_text": "histories of 1-60 calls with keys from a 4-letter alphabet (frequent collisions) on Table, InlineTable, both behind dyn TableLike, Array, ArrayOfTables and toml::Map (sorted build and, in a second phase, the preserve_order build) are executed against the real containers and against a Vec-backed reference; after every call the return value and len/is_empty/iter/into_iter/get/contains_key/get_key_value for every key and the decoded printed text are compared; placeholders left by mutable indexing must stay invisible",
+        "level_note": "trusted: the reference ordered map (about 150 lines). Tolerances: Some(Item::None) reads as absent; the position of a placeholder that is filled later is not compared",
+        "rule": "cases: random call histories per container type (insert, insert_formatted, remove, remove_entry, get_mut, entry or_insert/or_insert_with/insert/remove, entry_format, get_or_insert, retain, sort_values(_by), clear, mutable indexing read/assign/nested assign, extend, iter_mut, key; push/insert/replace/remove/retain/sort/extend for arrays). distinct = history hash; all non-trivial",
+        "assumptions": COMMON,
+    },
 }
